@@ -526,7 +526,7 @@ func main() {
 	// 3. ternary and in
 	nrand := 240
 	if vh.Thorough() {
-		nrand = 3000
+		nrand = 10000
 	}
 	for i := 0; i < nrand/4; i++ {
 		emit(&expr{op: "if", a: []*expr{leaf(0), leaf(1), leaf(2)}}, pick(), pick(), pick())
